@@ -102,6 +102,41 @@ func (f *Frame) instr(ins ssa.Instruction, st *state) {
 		f.rangeInstr(x, st)
 	case *ssa.Next:
 		f.nextInstr(x, st)
+	case *ssa.Defer:
+		// deferred call of a statically known function / closure: recorded with the reachability of the defer statement
+		var callee *ssa.Function
+		var binds []Val
+		if mc, ok := x.Call.Value.(*ssa.MakeClosure); ok {
+			callee = mc.Fn.(*ssa.Function)
+			for _, b := range mc.Bindings {
+				binds = append(binds, f.val(b))
+			}
+		} else if fn := x.Call.StaticCallee(); fn != nil {
+			callee = fn
+		} else if fv, ok := f.vals[x.Call.Value]; ok && fv.Fn != nil {
+			callee, binds = fv.Fn, fv.Binds
+		}
+		if callee == nil || x.Call.IsInvoke() || f.loopDepthOf(x.Block()) > 0 {
+			f.unsupported(st, ins, "defer of a dynamic call or inside a loop")
+			return
+		}
+		var args []Val
+		for _, a := range x.Call.Args {
+			args = append(args, f.val(a))
+		}
+		f.defers = append(f.defers, deferred{fn: callee, args: args, binds: binds, guard: st.reach, ins: x})
+	case *ssa.RunDefers:
+		for i := len(f.defers) - 1; i >= 0; i-- {
+			d := f.defers[i]
+			sub := &state{reach: and(st.reach, d.guard), mem: st.mem}
+			f.callStatic(sub, d.fn, d.args, d.binds, d.ins, nil)
+			// the deferred call only happened when its defer statement was executed
+			if d.guard == st.reach || d.guard == "true" {
+				st.mem = sub.mem
+			} else {
+				st.mem = f.u.mergeMem([]string{d.guard, not(d.guard)}, []*Mem{sub.mem, st.mem})
+			}
+		}
 	case *ssa.SliceToArrayPointer:
 		v := f.val(x.X)
 		n := x.Type().Underlying().(*types.Pointer).Elem().Underlying().(*types.Array).Len()
